@@ -38,8 +38,12 @@ ING = {
     "t11": dict(rules=[R(H1, P("/a", "s1", "prefix"), P("/a", "s2", "exact"))]),
     "t12": dict(rules=[R(H2, P("/", "s1", "", "http"))]),          # named port
     "t13": dict(rules=[R("*.h1.local", P("/", "s2"))], tls=[T("c1", "*.h1.local")]),   # wildcard host (C15 only)
+    "t14": dict(rules=[R(H2, P("/Up", "s2", "exact"), P("/Pre", "s1", "prefix"))]),      # upper-case letters in exact / prefix paths (C03)
+    "t15": dict(rules=[R("", P("/", "s1", "exact"))]),                                    # host-less exact root (C03)
+    "t16": dict(rules=[], **{"def": P("", "s2")}),                                         # spec.defaultBackend only (C03)
 }
 CORE_NOWILD = ["t%d" % i for i in range(1, 13)]
+CORE_ROUTING = CORE_NOWILD + ["t14", "t15", "t16"]
 
 EPS = {  # endpoint sets: (ready, notready)
     "e0": ([], []),
@@ -47,6 +51,7 @@ EPS = {  # endpoint sets: (ready, notready)
     "e2": (["1", "2"], []),
     "e3": (["2"], ["3"]),
     "e4": (["3", "1", "2"], []),
+    "e5": (["1"], [], ["4"]),      # third element: ready addresses of a second subset, same port names, port 8081
 }
 
 SVC_IP = {"s1": "10.1.0.", "s2": "10.2.0.", "s3": "10.3.0.", "auth": "10.9.0."}
@@ -76,11 +81,15 @@ def op_svc(svc, ns=NS, ann=None, ports=None):
 
 
 def op_eps(svc, eid, ns=NS):
-    ready, notready = EPS[eid] if isinstance(eid, str) else eid
+    e = EPS[eid] if isinstance(eid, str) else eid
+    ready, notready, ready2 = e[0], e[1], (e[2] if len(e) > 2 else [])
     ip = SVC_IP.get(svc, "10.8.0.")
     mk = lambda n: "%s%s:%s-%s" % (ip, n, svc, n)
-    return dict(kind="eps", name="%s/%s" % (ns, svc), ready=[mk(n) for n in ready], notready=[mk(n) for n in notready],
-                ports=["web:8080", "http:8080"], tmpl=eid if isinstance(eid, str) else "custom")
+    op = dict(kind="eps", name="%s/%s" % (ns, svc), ready=[mk(n) for n in ready], notready=[mk(n) for n in notready],
+              ports=["web:8080", "http:8080"], tmpl=eid if isinstance(eid, str) else "custom")
+    if ready2:
+        op["ready2"], op["ports2"] = [mk(n) for n in ready2], ["web:8081", "http:8081"]
+    return op
 
 
 def op_eps_named(svc, eid, ns=NS):
@@ -223,7 +232,7 @@ def random_history(rng, hid, steps=6, ext=False, shards=None, batch=3, slots=3, 
 
 # ------------------------------------------------------------------ TLA+ view of the core vocabulary
 
-REQ_PATHS = ["/", "/a", "/a/", "/a/b", "/a/b/c", "/ab", "/A", "/x"]
+REQ_PATHS = ["/", "/a", "/a/", "/a/b", "/a/b/c", "/ab", "/A", "/x", "/Up", "/up", "/Pre/x", "/pre/x"]
 REQ_SNI = [(H1, ""), (H2, ""), ("a.h1.local", "*.h1.local"), ("b.a.h1.local", ""), ("x.local", ""), ("h1.local.x", "")]
 REQ_HOSTS = [(H1, H1), (H2, H2), (H1, "H1.LOCAL"), ("x.local", "x.local")]
 
@@ -257,6 +266,13 @@ def tla_universe():
                 seen.add(key)
                 rs.append('[h |-> "%s", p |-> "%s", ty |-> "%s", s |-> "%s"]' % (key + (p["svc"],)))
                 bk.append('h = "%s" /\\ p = "%s" /\\ ty = "%s" -> "%s"' % (key + (p["svc"],)))
+        if d.get("def"):
+            # spec.defaultBackend: the root of the default host, begin match
+            key = ("<default>", "/", "begin")
+            if key not in seen:
+                seen.add(key)
+                rs.append('[h |-> "%s", p |-> "%s", ty |-> "%s", s |-> "%s"]' % (key + (d["def"]["svc"],)))
+                bk.append('h = "%s" /\\ p = "%s" /\\ ty = "%s" -> "%s"' % (key + (d["def"]["svc"],)))
         rules.append('t = "%s" -> {%s}' % (t, ", ".join(rs)))
         backs.append('t = "%s" -> (CASE %s [] OTHER -> "none")' % (t, " [] ".join(bk)) if bk else 't = "%s" -> "none"' % t)
         ts, seenh, sc = [], set(), []
@@ -274,10 +290,10 @@ def tla_universe():
             "TmplBackend(t, h, p, ty) ==\n    CASE " + j.join(backs) + j + 'OTHER -> "none"', "",
             "TmplTLS(t) ==\n    CASE " + j.join(tls) + j + "OTHER -> {}", "",
             "TmplSecret(t, h) ==\n    CASE " + j.join(secs) + j + 'OTHER -> "none"', "",
-            "EpsReady(e) ==\n    CASE " + j.join('e = "%s" -> {%s}' % (e, ", ".join('"%s"' % n for n in sorted(r))) for e, (r, _n) in EPS.items())
+            "EpsReady(e) ==\n    CASE " + j.join('e = "%s" -> {%s}' % (e, ", ".join('"%s"' % n for n in sorted(r))) for e, r in ((e, set(v[0]) | set(v[2] if len(v) > 2 else [])) for e, v in EPS.items()))
             + j + "OTHER -> {}", "",
             'InitEps(s) == IF s = "s1" THEN "e1" ELSE "e2"', "",
-            "EpsNotReady(e) ==\n    CASE " + j.join('e = "%s" -> {%s}' % (e, ", ".join('"%s"' % n for n in sorted(nr))) for e, (_r, nr) in EPS.items())
+            "EpsNotReady(e) ==\n    CASE " + j.join('e = "%s" -> {%s}' % (e, ", ".join('"%s"' % n for n in sorted(nr))) for e, nr in ((e, v[1]) for e, v in EPS.items()))
             + j + "OTHER -> {}", "",
             "PathChars(p) ==\n    CASE " + j.join('p = "%s" -> %s' % (pp, _chars(pp)) for pp in sorted(_all_paths())) + j + "OTHER -> <<>>", "",
             "ReqPaths == <<%s>>" % ", ".join(_chars(pp) for pp in REQ_PATHS), "",
